@@ -64,6 +64,7 @@ def handleDomain (req : Json) : Except String Json := do
     if !(d.hasAll as) then throw "raise"
     pure (Json.mkObj [("val", Codec.enc (d.sizeOf as))])
   | "sort_size" => pure (Json.mkObj [("dom", encDom d.sortSize)])
+  | "sort_name" => pure (Json.mkObj [("dom", encDom d.sortName)])
   | _ => throw s!"unknown fn {fn}"
 
 end PGM.Driver
